@@ -95,8 +95,8 @@ define_ops! {
     op_xor = |a: U, b: U, sh: N| pair(|| shapes!(sh, a, b, ^, ^=), || core::ops::BitXor::bitxor(a, b));
     op_neg = |a: U, sh: N| pair(|| if sh == 0 { -a } else { -&a }, || Uint::wrapping_neg(a));
     op_not = |a: U, sh: N| pair(|| if sh == 0 { !a } else { !&a }, || Uint::not(a));
-    sum = |s: US, r: BO| pair(|| if r { s.iter().sum::<Uint<B, L>>() } else { s.iter().copied().sum::<Uint<B, L>>() }, || s.iter().fold(Uint::<B, L>::ZERO, |x, y| Uint::wrapping_add(x, *y)));
-    product = |s: US, r: BO| pair(|| if r { s.iter().product::<Uint<B, L>>() } else { s.iter().copied().product::<Uint<B, L>>() }, || if B == 0 { Uint::<B, L>::ZERO } else { s.iter().fold(Uint::<B, L>::from(1u64), |x, y| Uint::wrapping_mul(x, *y)) });
+    sum = |s: US, r: N| pair(|| match r { 0 => s.iter().copied().sum::<Uint<B, L>>(), 1 => s.iter().sum::<Uint<B, L>>(), 2 => NoHint(s.iter().copied()).sum::<Uint<B, L>>(), 3 => NoHint(s.iter()).sum::<Uint<B, L>>(), _ => s.iter().copied().filter(|_| true).sum::<Uint<B, L>>() }, || s.iter().fold(Uint::<B, L>::ZERO, |x, y| Uint::wrapping_add(x, *y)));
+    product = |s: US, r: N| pair(|| match r { 0 => s.iter().copied().product::<Uint<B, L>>(), 1 => s.iter().product::<Uint<B, L>>(), 2 => NoHint(s.iter().copied()).product::<Uint<B, L>>(), 3 => NoHint(s.iter()).product::<Uint<B, L>>(), _ => s.iter().copied().filter(|_| true).product::<Uint<B, L>>() }, || if B == 0 { Uint::<B, L>::ZERO } else { s.iter().fold(Uint::<B, L>::from(1u64), |x, y| Uint::wrapping_mul(x, *y)) });
     // shifts by a Uint amount (4 shapes) and by each primitive amount type (t = type code, 4 shapes)
     op_shl_uint = |a: U, s: U, sh: N| pair(|| match sh { 0 => a << s, 1 => a << &s, 2 => { let mut x = a; x <<= s; x } _ => { let mut x = a; x <<= &s; x } }, || match usize::try_from(s) { Ok(n) => Uint::wrapping_shl(a, n), Err(_) => Uint::<B, L>::ZERO });
     op_shr_uint = |a: U, s: U, sh: N| pair(|| match sh { 0 => a >> s, 1 => a >> &s, 2 => { let mut x = a; x >>= s; x } _ => { let mut x = a; x >>= &s; x } }, || match usize::try_from(s) { Ok(n) => Uint::wrapping_shr(a, n), Err(_) => Uint::<B, L>::ZERO });
@@ -311,6 +311,22 @@ fn c20(r: &Runner) {
                 }
             }
         });
+        // exact multiples (and their neighbours) of ordinary one-limb divisors, with zero limbs in every position
+        let em = exact_multiples(bits, ORDINARY_DIVISORS);
+        if !em.is_empty() {
+            const DIVLIKE: &[Op] = &[Op::ni_is_multiple_of, Op::ni_div_rem, Op::ni_div_ceil, Op::ni_div_mod_floor, Op::ni_div_floor, Op::ni_mod_floor, Op::ni_gcd, Op::x_ni_lcm, Op::nt_checked_div, Op::nt_checked_rem, Op::nt_div_euclid, Op::nt_rem_euclid];
+            r.universe(&format!("exact multiples n = [solved, {{0,1,g1,g2}}..] of {} ordinary one-limb divisors, +-1", ORDINARY_DIVISORS.len()), bits, em.len(), |i, l| {
+                let (n, d) = (vu(&em[i].0), vu(&em[i].1));
+                l.states(1);
+                for &op in DIVLIKE {
+                    exec(l, bits, op, &[n.clone(), d.clone()]);
+                }
+                for sh in 0..6 {
+                    exec(l, bits, Op::op_div, &[n.clone(), d.clone(), V::n(sh)]);
+                    exec(l, bits, Op::op_rem, &[n.clone(), d.clone(), V::n(sh)]);
+                }
+            });
+        }
         // ternary: mul_add on a thinner universe
         let (tv, td) = if bits <= 4 { (small_all(bits), format!("S({bits})")) } else { pick(bits, 24, &[]) };
         r.universe(&format!("({td})^3 mul_add, sequences"), bits, tv.len(), |i, l| {
@@ -321,17 +337,17 @@ fn c20(r: &Runner) {
                     exec(l, bits, Op::nt_mul_add, &[a.clone(), vu(b), vu(c)]);
                     exec(l, bits, Op::nt_mul_add_assign, &[a.clone(), vu(b), vu(c)]);
                     let s = V::L(vec![a.clone(), vu(b), vu(c)]);
-                    for rf in [false, true] {
-                        exec(l, bits, Op::sum, &[s.clone(), V::B(rf)]);
-                        exec(l, bits, Op::product, &[s.clone(), V::B(rf)]);
+                    for rf in 0..5usize {
+                        exec(l, bits, Op::sum, &[s.clone(), V::n(rf)]);
+                        exec(l, bits, Op::product, &[s.clone(), V::n(rf)]);
                     }
                 }
             }
-            for rf in [false, true] {
-                exec(l, bits, Op::sum, &[V::L(vec![]), V::B(rf)]);
-                exec(l, bits, Op::product, &[V::L(vec![]), V::B(rf)]);
-                exec(l, bits, Op::sum, &[V::L(vec![a.clone()]), V::B(rf)]);
-                exec(l, bits, Op::product, &[V::L(vec![a.clone()]), V::B(rf)]);
+            for rf in 0..5usize {
+                exec(l, bits, Op::sum, &[V::L(vec![]), V::n(rf)]);
+                exec(l, bits, Op::product, &[V::L(vec![]), V::n(rf)]);
+                exec(l, bits, Op::sum, &[V::L(vec![a.clone()]), V::n(rf)]);
+                exec(l, bits, Op::product, &[V::L(vec![a.clone()]), V::n(rf)]);
             }
         });
         // unary and indexed
